@@ -331,6 +331,14 @@ class AbstractMessageLogEntry(abc.ABC):
         if not isinstance(val, (int, float, bytes, str, type(None), tuple, TupleCoord)):
             val = str(val)
 
+        try:
+            return bool(self._compare_val(operator, val, expected))
+        except (TypeError, AttributeError):
+            # Operator can't be applied to a field of this type, so it doesn't match.
+            return False
+
+    @staticmethod
+    def _compare_val(operator, val, expected):
         if not operator:
             return bool(val)
         elif operator == "==":
